@@ -13,7 +13,7 @@ import json as _json
 from symx.api import harness
 
 from spyne import Application, Service, rpc, ComplexModel
-from spyne.model.primitive import Integer, Unicode, Decimal, Date, Boolean, Double, Integer64, Integer32, Integer8, UnsignedInteger64
+from spyne.model.primitive import Integer, Unicode, Decimal, Date, Boolean, Double, Integer64, Integer32, Integer8, UnsignedInteger64, DateTime
 from spyne.model.complex import Array
 from spyne.model.binary import ByteArray
 from spyne.model.fault import Fault
@@ -91,6 +91,10 @@ class Svc(Service):
     def binners(ctx, xs):
         return xs
 
+    @rpc(DateTime, _returns=DateTime, _body_style='bare')
+    def bwhen(ctx, t):
+        return t
+
 
 PROTOCOLS = {'json': JsonDocument, 'yaml': YamlDocument, 'msgpack': MessagePackDocument,
              'msgpack-bkey': MessagePackDocument}     # -bkey: the method key is sent as msgpack bin
@@ -117,7 +121,11 @@ def enc_int(sx, v, wire):
     """msgpack cannot carry integers outside [-2^63, 2^64): those travel as decimal text"""
     if wire == 'msgpack' and v is not None:
         if not (v >= -2 ** 63 and v < 2 ** 64):
-            return sx.render(v)
+            # decimal text, as msgpack str or - the form spyne itself writes - as msgpack bin (one spelling per run)
+            form = getattr(sx, '_huge_int_form', None)
+            if form is None:
+                form = sx._huge_int_form = sx.choose('huge_int_form', ['str', 'bin'])
+            return sx.render(v) if form == 'str' else sx.render(v).encode('ascii')
     return v
 
 
@@ -732,11 +740,11 @@ def _exact_scaled(d, k):
     return -n if sign else n
 
 
-BARE = {'bint': 'int', 'bints': ['int'], 'binner': 'Inner', 'binners': ['Inner']}
+BARE = {'bint': 'int', 'bints': ['int'], 'binner': 'Inner', 'binners': ['Inner'], 'bwhen': 'datetime'}
 
 
 @harness('C02', params=[(c, m) for c in CONFIGS for m in sorted(BARE)], label=lambda p: LABEL(p[0]) + ' method=' + p[1], functions=FUNCS,
-         bounds={'signatures': 'bare body style with an integer, an array of 0..2 integers, an object, an array of 0..2 objects; the '
+         bounds={'signatures': 'bare body style with an integer, an array of 0..2 integers, an object, an array of 0..2 objects, a DateTime (years 0001..9999, naive / UTC / any offset); the '
                                'argument under the method key in the same conventions as a member of that type',
                  'values': 'unbounded integer, strings of one arbitrary code point'})
 def bare_signatures(sx, p):
@@ -747,6 +755,25 @@ def bare_signatures(sx, p):
     app, server = get(*cfg)
     wire = 'msgpack' if pname.startswith('msgpack') else None
     typ = BARE[meth]
+    if typ == 'datetime':
+        # every instant python can hold (years 0001..9999), naive, UTC or with an offset, as its ISO 8601 text
+        zone = sx.choose('zone', ['naive', 'utc', 'offset'])
+        # (with an offset: years 0002..9998, so that the instant lies inside the type's default UTC range ge/le)
+        t = sx.datetime('t', tz=zone, ymin=2, ymax=9998) if zone == 'offset' else sx.datetime('t', tz=zone)
+        text = t.isoformat()
+        ctx = deliver(sx, pname, app, server, {meth: text})
+        got = ctx.in_object
+        if got is None:
+            return False
+        same = sx.And(sx.eq(got.replace(tzinfo=None), t.replace(tzinfo=None)), sx.eq(sx.offset_minutes(got), sx.offset_minutes(t))
+                      if sx.offset_minutes(t) is not None else sx.offset_minutes(got) is None)
+        doc = respond(sx, pname, app, ctx, [got])
+        if not isinstance(doc, (list, tuple)) or len(doc) != 1:
+            return False
+        node = _denorm(doc[0])
+        if wire == 'msgpack':
+            node = _as_text(sx, node)
+        return sx.And(same, sx.is_str(node), sx.eq(node, text))
     if isinstance(typ, list):
         n = sx.choose('n', [2, 1, 0])
         val = [sx.int('x%d' % i, -2 ** 66, 2 ** 66) if typ[0] == 'int' else mk_inner(sx, 'o%d' % i, wire is None) for i in range(n)]
